@@ -123,7 +123,15 @@ fn deinterpolate_in(ts: TokenStream, allow_drop: bool) -> TokenStream {
                     let next_starts_stmt = matches!(next, Some(TokenTree::Ident(k)) if !["as", "in", "else", "where", "for", "if", "match"].contains(&k.to_string().as_str()))
                         || matches!(next, Some(TokenTree::Literal(_)));
                     let next_ok = next.is_none() || is_interp_at(i + 2) || next_starts_stmt;
-                    if vis_pos {
+                    let after_where = i > 0 && matches!(&toks[i - 1], TokenTree::Ident(k) if k == "where")
+                        && !matches!(next, Some(TokenTree::Punct(p)) if p.as_char() == ':');
+                    if after_where {
+                        // `where #bound`: a spliced where-predicate; stands for some `T: Bound`
+                        let name = format!("__I_{}", id);
+                        let pred: TokenStream = format!("{}: ::core::marker::Sized", name).parse().unwrap();
+                        out.extend(pred);
+                        prev_dropped = false;
+                    } else if vis_pos {
                         out.extend(std::iter::once(TokenTree::Ident(proc_macro2::Ident::new("pub", id.span()))));
                         prev_dropped = false;
                     } else if allow_drop && prev_ok && next_ok {
@@ -276,7 +284,7 @@ impl<'ast> Visit<'ast> for PathCollector {
 fn parse_template(ts: TokenStream) -> Option<(String, PathCollector)> {
     let body = deinterpolate(ts);
     let s = body.to_string();
-    let wrappers: [(&str, &str, &str); 8] = [
+    let wrappers: [(&str, &str, &str); 10] = [
         ("file", "", ""),
         ("impl", "impl __W { ", " }"),
         ("stmts", "fn __w() { ", " }"),
@@ -285,6 +293,8 @@ fn parse_template(ts: TokenStream) -> Option<(String, PathCollector)> {
         ("exprs", "fn __w() { let _ = [ ", " ]; }"),
         ("fields", "struct __W { ", " }"),
         ("type", "type __W = ", ";"),
+        ("where", "fn __w<B, F>() where ", " {}"),
+        ("generics", "fn __w< ", " >() {}"),
     ];
     for (name, pre, post) in wrappers.iter() {
         let src = format!("{}{}{}", pre, s, post);
